@@ -36,7 +36,7 @@ func HarnessC01PrevNext() {
 
 // HarnessC01Folding: hosts that collide under Unicode case folding (concrete).
 func HarnessC01Folding() {
-	hosts := []string{"k.t", "K.t", "K.t", "ſ.t", "xK.t", "K"}
+	hosts := []string{"k.t", "K.t", "\u212a.t", "\u017f.t", "x\u212a.t", "\u212a", "xK.t"} // (escapes: U+212A KELVIN SIGN and U+017F must not be normalised away by an editor)
 	pageURL, err := nurl.Parse("http://" + hosts[vx.Choose("pagehost", len(hosts))] + "/story/2")
 	if err != nil {
 		return
